@@ -79,6 +79,7 @@ type Interp struct {
 	Deadline    time.Time
 	MaxDecisions int
 	refine      map[string][2]*big.Int // path-local interval refinements by term key
+	numLeaves   []*Term                // integer-valued symbolic leaves of documents
 }
 
 type HarnessCfg struct {
@@ -342,9 +343,53 @@ func (in *Interp) decide(kind string, alts []*Term) int {
 	return first
 }
 
+// bigModel returns a model of the path condition, preferring one in which
+// some integer input has a huge magnitude (shows that a cost event is driven
+// by the magnitude of a parameter rather than by data size).
+func (in *Interp) bigModel() map[string]*Term {
+	big40 := BigC(pow2[40])
+	var cands []*Term
+	for _, d := range in.Draws {
+		switch d.Kind {
+		case "int":
+			cands = append(cands, d.T)
+		case "magic":
+			cands = append(cands, d.Ints...)
+		case "jnum":
+			if d.S != nil && d.S.Num != nil && d.S.Num.K != nil {
+				cands = append(cands, d.S.Num.K)
+			}
+		}
+	}
+	for _, t := range in.numLeaves {
+		cands = append(cands, t)
+	}
+	// greedily make as many inputs as possible huge at once
+	var acc []*Term
+	var best map[string]*Term
+	for _, t := range cands {
+		if t.IsConst() {
+			continue
+		}
+		for _, c := range []*Term{Gt(t, big40), Lt(t, Neg(big40))} {
+			if r, m := in.query(append(append([]*Term{}, acc...), c)...); r == Sat {
+				acc = append(acc, c)
+				best = m
+				break
+			}
+		}
+	}
+	if best != nil {
+		in.noteList = append(in.noteList, "magnitude-driven")
+		return best
+	}
+	_, m := in.query()
+	return m
+}
+
 func (in *Interp) checkDecisionCap() {
 	if in.MaxDecisions > 0 && len(in.Trace) >= in.MaxDecisions {
-		_, model := in.query()
+		model := in.bigModel()
 		in.Events = append(in.Events, Event{Kind: "budget", Msg: fmt.Sprintf("more than %d symbolic decisions on one path (loop driven by a symbolic quantity?)", in.MaxDecisions), Where: in.where(), Stack: in.stackNames(), Model: model})
 		in.end("budget", "decision cap")
 	}
